@@ -10,7 +10,8 @@ THEOREMS = ["C02_stream_ends_with_finish_partial", "C02_codec_roundtrip_linear",
             "C02_convert_structured_eq", "C02_codec_roundtrip_loops", "C02_codec_roundtrip_track",
             "C02_stream_at_offset_partial", "C02_call_return_partial", "C02_double_break_fixed",
             "C02_track_at_offset_partial", "C02_track_shapes_convert", "C02_drum_call_return_partial",
-            "C02_drum_routine_at_offset_partial", "C02_song_roundtrip_partial"]
+            "C02_drum_routine_at_offset_partial", "C02_song_roundtrip_partial",
+            "C02_optimised_song_roundtrip_partial", "C02_optimised_song_roundtrip_nodrum_partial"]
 LEVEL = "proof"
 STREAM = "conv.events+conv.seq"
 CHUNK = 100
@@ -31,22 +32,30 @@ LEVEL_TEXT = ("see DESIGN §6 C02 and the theorem list in lean/Ctrmml/Properties
               "converter registered = commands without time and loops of them before its first note; the loop section ends in the drum-mode state it starts in; <= 1 loop point per "
               "channel; chunk < 64 KiB) and every channel track in "
               "Timeline.inDomain, the interpreter started at the position the track table lists plays, after masking of index operands, exactly Timeline.expected (calls to any depth "
-              "through the pointer table in either drum-mode state, notes in drum mode through their routines, what is replayed after the loop-back jump). Outside the fragment "
-              "(pitch envelopes, platform `cmd` with index-bearing or unknown opcodes, optimised songs, drum mode switched inside loops / by callees = D27) "
+              "through the pointer table in either drum-mode state, notes in drum mode through their routines, what is replayed after the loop-back jump). (4) Optimised songs: "
+              "C02_optimised_song_roundtrip_partial — C01_optimize_preserves composed with (3): if Opt.optimize returns a validated song that lies in the fragment, the chunk "
+              "assembled from the OPTIMISED song plays Timeline.expected of the ORIGINAL song (Timeline.expected is a function of the observation obs that C01 preserves and of "
+              "how drum routines resolve: SongOpt.expected_congr; extra hypothesis DrumAlike = the routines named by the notes of a performance that switches drum mode resolve "
+              "alike in both songs, vacuous without drum mode: C02_optimised_song_roundtrip_nodrum_partial). Outside the fragment "
+              "(platform `cmd` with index-bearing or unknown opcodes, optimised songs whose result leaves the fragment, drum mode switched inside loops / by callees = D27) "
               "the statement C02_full_statement is decided per case by the spec interpreter on the REAL bytes against Spec/Timeline; the judge marks the cases that are instances "
-              "of the whole-song theorem (ok proved-fragment) and cross-checks the constructor model the theorem is stated over (MdsFile.construct) against the real bytes.")
+              "of the whole-song theorem (ok proved-fragment; for `convo` requests: ok proved-fragment (optimised) = C01's hypotheses on the original song, no drum mode, "
+              "the optimiser model's result in the fragment and assembled by MdsFile.construct to exactly the real bytes) and cross-checks the constructor model the theorem is stated over (MdsFile.construct) against the real bytes.")
 LEVEL_NOTE = ("Trusted: Lean kernel; Model/MdsCodec+MdsConv+MdsFile (byte-exact agreement with mdsdrv.cpp by differential testing); Spec/SeqInterp = my reconstruction of the MDSDRV "
               "sequence rules (driver source not in the repository); Spec/Timeline+Expand; instrument tables are inputs (C11 models them). Proved for all inputs: single tracks of the "
               "codec fragment, and whole songs of the fragment, drum mode included (partial: extra hypotheses = chunk < 64 KiB, at most one loop point per channel track, called tracks "
               "without loop point / drum-mode switch, drum-mode switches outside loops, routine tracks = timeless commands before the first note, loop section ending in the drum state it "
-              "starts in, no pitch envelope, platform commands agreeing between converter and timeline (PlatAgree), acceptance by the constructor). Still decided per case by the "
-              "oracle: pitch envelopes, exotic platform `cmd` opcodes, optimised songs (D2 repaired in 6f86090: a fold takes at most 255 repetitions, Properties/C01 C01_optimize_counts_le_255; the family `d2_cases` "
+              "starts in, platform commands agreeing between converter and timeline (PlatAgree), acceptance by the constructor; for optimised songs additionally the hypotheses "
+              "of C01_optimize_preserves on the original song, the result validated and in the fragment, drum routines resolving alike). Pitch envelope definitions travel in the "
+              "conv requests since round 5 (M:<id>=<form>:<k>:<index>; the harness defines @M<id> in compact / extended / loop-mark / vibrato form and echoes pitch_map and "
+              "pitch_extend as peg=, the model takes them from the request). Still decided per case by the "
+              "oracle: exotic platform `cmd` opcodes, optimised songs outside those hypotheses (D2 repaired in 6f86090: a fold takes at most 255 repetitions, Properties/C01 C01_optimize_counts_le_255; the family `d2_cases` "
               "runs 254..257, 300, 509..511, 1000 repetitions through optimiser + converter), acceptance (that the converter accepts every encodable song). Known: D24 (loop point in a called channel track), "
               "D27 (drum mode decided in text order by the writer, in execution order by the driver). The oracle's domain (skip otherwise): Timeline.inDomain and, since repo fix b6d6699 "
               "(the converter refuses a drum routine whose ending note is inside a '[]' loop: err:drumNoteInLoop), Fragment.routineNotesOutsideLoops (every routine the "
               "specification calls, execution order, has its first note outside loops); the model must refuse exactly the same songs (correspondence).")
 RULE = ("IR songs in the encodable domain from the song grammar (1..4 channel tracks, subroutines, drum routines, loops with breaks, loop point at depth 0, commands, platform commands, "
-        "instruments) + adjacency sweep: ordered triples over {explicit note, implicit-length note, tie, rest<128, rest>=128, rest=last rest, command, SEGNO, LP, LPB, LPF, PAT} x durations "
+        "instruments, pitch envelopes) + pitch family (definitions in four forms, switched on / to another / off at top level, in loops around the break, in subroutines, behind the loop point) + adjacency sweep: ordered triples over {explicit note, implicit-length note, tie, rest<128, rest>=128, rest=last rest, command, SEGNO, LP, LPB, LPF, PAT} x durations "
         "{1,2,127,128,129,256,65535}; non-trivial = has loop/call/segno/long duration; distinct by request text")
 EXPLANATION = "spec interpreter on the real seq bytes vs tick string of the expansion; model vs real converter byte-exact"
 ASSUMPTIONS = ["MDSDRV sequence semantics as written in Spec/SeqInterp.lean", "ppqn = 24 for bpm_to_delta"]
